@@ -1449,6 +1449,23 @@ func singleStoreCell(addr ssa.Value) ssa.Value {
 // every back edge brings xs[i+k] for the counter i (init, step) of the same loop header.
 func (a *FA) elemLoadLin(v ssa.Value) (ssa.Value, Lin, bool) {
 	if c, i, ok := asElemLoad(v); ok {
+		// an element of a re-sliced view xs[lo:][k] is element lo+k of xs
+		if _, isSl := c.(*ssa.Slice); isSl {
+			if off, okOff := sliceOffset(a, c); okOff {
+				base := c
+				for depth := 0; depth < 8; depth++ {
+					sl, ok := base.(*ssa.Slice)
+					if !ok {
+						break
+					}
+					if _, isPtr := sl.X.Type().Underlying().(*types.Pointer); isPtr {
+						break
+					}
+					base = sl.X
+				}
+				return base, a.Lin(i).Add(off), true
+			}
+		}
 		return c, a.Lin(i), true
 	}
 	p, ok := stripConv(v).(*ssa.Phi)
